@@ -355,6 +355,71 @@ Definition indepb (g : graph) (l : list nat) : bool := forallb (fun u => forallb
 Definition best_enum (g : graph) (s : state) : Z :=
   fold_right Z.max 0 (map (fun l => weight g (of_list l)) (filter (indepb g) (subsets (to_list g s)))).
 
+(* best_enum IS the maximum weight of an independent set of the state: an upper bound of all, attained by one *)
+Lemma of_list_spec l u : of_list l u = true <-> In u l.
+Proof.
+  unfold of_list. rewrite existsb_exists. split; [intros (x & Hx & E); apply Nat.eqb_eq in E; now subst|intros H; exists u; split; [exact H|apply Nat.eqb_refl]].
+Qed.
+Lemma to_list_spec g s u : In u (to_list g s) <-> (u < g_n g)%nat /\ s u = true.
+Proof. unfold to_list. rewrite filter_In, in_seq. split; intros [A B]; split; try assumption; lia. Qed.
+Lemma In_subsets_filter (f : nat -> bool) : forall L, In (filter f L) (subsets L).
+Proof.
+  induction L as [|x r IH]; cbn [filter subsets]; [left; reflexivity|]. apply in_or_app. destruct (f x); [right; apply in_map; exact IH|left; exact IH].
+Qed.
+Lemma subsets_incl : forall L l, In l (subsets L) -> incl l L.
+Proof.
+  induction L as [|x r IH]; cbn [subsets]; intros l H.
+  - destruct H as [<-|[]]. intros u [].
+  - apply in_app_or in H as [H|H]; [intros u Hu; right; now apply (IH l H)|].
+    apply in_map_iff in H as (l' & <- & H'). intros u [<-|Hu]; [left; reflexivity|right; now apply (IH l' H')].
+Qed.
+Lemma fold_max_ge : forall L x, In x L -> x <= fold_right Z.max 0 L.
+Proof. induction L as [|y r IH]; intros x []; cbn [fold_right]; [subst; lia|specialize (IH x H); lia]. Qed.
+Lemma fold_max_in : forall L, fold_right Z.max 0 L = 0 \/ In (fold_right Z.max 0 L) L.
+Proof.
+  induction L as [|y r IH]; cbn [fold_right]; [left; reflexivity|].
+  destruct (Z.max_spec y (fold_right Z.max 0 r)) as [[_ ->]|[_ ->]]; [destruct IH as [->|H]; [left; reflexivity|right; right; exact H]|right; left; reflexivity].
+Qed.
+Lemma indepb_spec g l : indepb g l = true <-> forall u v, In u l -> In v l -> u <> v -> adj g u v = false.
+Proof.
+  unfold indepb. rewrite forallb_forall. split.
+  - intros H u v Hu Hv Ne. specialize (H u Hu). rewrite forallb_forall in H. specialize (H v Hv).
+    apply orb_prop in H as [E|E]; [apply Nat.eqb_eq in E; congruence|now apply negb_true_iff in E].
+  - intros H u Hu. apply forallb_forall. intros v Hv. destruct (Nat.eqb_spec u v) as [E|E]; [reflexivity|]. cbn [orb]. apply negb_true_iff. now apply H.
+Qed.
+
+Theorem best_enum_upper g s I : IS g s I -> weight g I <= best_enum g s.
+Proof.
+  intros [H1 H2]. unfold best_enum. set (l := filter I (to_list g s)).
+  assert (Hl : forall u, In u l <-> I u = true).
+  { intros u. unfold l. rewrite filter_In, to_list_spec. split; [tauto|]. intros Iu. destruct (H1 u Iu). tauto. }
+  assert (E : weight g I = weight g (of_list l)).
+  { apply weight_ext. intros u. destruct (I u) eqn:Iu.
+    - symmetry. apply of_list_spec, Hl, Iu.
+    - destruct (of_list l u) eqn:O; [|reflexivity]. apply of_list_spec, Hl in O. congruence. }
+  rewrite E. apply fold_max_ge. apply (in_map (fun l0 => weight g (of_list l0))). apply filter_In. split; [apply In_subsets_filter|].
+  apply indepb_spec. intros u v Hu Hv. apply H2; now apply Hl.
+Qed.
+Theorem best_enum_attained g s : exists I, IS g s I /\ weight g I = best_enum g s.
+Proof.
+  unfold best_enum. destruct (fold_max_in (map (fun l => weight g (of_list l)) (filter (indepb g) (subsets (to_list g s))))) as [Z|H].
+  - exists (fun _ => false). split; [apply IS_none|]. rewrite Z. now apply weight_none.
+  - apply in_map_iff in H as (l & E & Hl). apply filter_In in Hl as [Hs Hi]. exists (of_list l). split; [|exact E].
+    apply subsets_incl in Hs. split.
+    + intros u Hu. apply of_list_spec in Hu. now apply to_list_spec, Hs.
+    + intros u v Hu Hv. apply of_list_spec in Hu, Hv. apply (proj1 (indepb_spec g l) Hi); assumption.
+Qed.
+(* so: the value of every feasible run from s is at most best_enum g s, and some run over any sequence listing all vertices has that value *)
+Corollary misp_dp_optimum g s vs : vars_ok g vs -> (forall u, (u < g_n g)%nat -> In u vs) ->
+  (forall ds s' c, m_run g s vs ds = Some (s', c) -> c <= best_enum g s) /\
+  (exists ds s' c, m_run g s vs ds = Some (s', c) /\ c = best_enum g s).
+Proof.
+  intros Hok All. split.
+  - intros ds s' c R. destruct (misp_dp_sound g vs ds s s' c Hok R) as [A <-]. now apply best_enum_upper.
+  - destruct (best_enum_attained g s) as (I & HI & W). destruct (misp_dp_complete_all_vertices g vs s I HI All) as (s' & c & R & E).
+    exists (decs I vs), s', c. split; [exact R|congruence].
+Qed.
+
 Definition g_ex : graph := mk_graph 4 [3; 4; 2; -1] [(0, 1); (1, 2)]%nat.
 Example misp_example :
   (best_enum g_ex (m_init g_ex) = 5) /\ (m_rub g_ex (m_init g_ex) = 9) /\ (to_list g_ex (m_trans g_ex (m_init g_ex) 1%nat true) = [3%nat]) /\
